@@ -41,6 +41,8 @@ def handle (op : String) (args : List String) : String :=
       | .ok k => joinSp ("ok" :: [k.xB, k.W, k.Q2, k.t, k.tm, k.xi].map showOF)
       | .kinematicsError => "KinematicsError"
       | .assertionError => "AssertionError"
+      | .zeroDivisionError => "ZeroDivisionError"
+      | .valueError => "ValueError"
     | _, _, _, _, _, _ => "bad-op"
   | "c13.toconv", ts =>
     match parseCPt ts with
